@@ -270,4 +270,33 @@ theorem overload_takes_effect (r f : String) (a b : SExpr) (a' b' : Expr) (hf : 
   simp [buildBinary, climb, climbRec, climbInner, hp, foldTree, hf, newCall, toCore, toCoreList, ha, hb]
 
 
+/-! ## the derived comparisons depend only on the sign of `cmp`
+
+`<  >  >=  <=` on a type with a user `cmp` are the documented functions of `cmp(a, b)` (std/general.md: "whether
+`cmp(a,b)` is less than zero" …): whatever integer the user's `cmp` returns — `a::x - b::x`, a bignum, -1/0/1 — only
+its sign matters, and `!=` is the negation of the user's `eq`. -/
+
+theorem derived_cmp_spec (c : Int) :
+    derivedOfCmp "lt" c = some (decide (c < 0)) ∧ derivedOfCmp "le" c = some (decide (c ≤ 0)) ∧
+    derivedOfCmp "gt" c = some (decide (c > 0)) ∧ derivedOfCmp "ge" c = some (decide (c ≥ 0)) := by
+  refine ⟨rfl, ?_, rfl, ?_⟩ <;> simp only [derivedOfCmp, Option.some.injEq] <;>
+    rw [Bool.eq_iff_iff] <;> simp <;> omega
+
+theorem derived_cmp_sign (name : String) (c c' : Int) (h : Int.sign c = Int.sign c') :
+    derivedOfCmp name c = derivedOfCmp name c' := by
+  have h1 : (c < 0 ↔ c' < 0) := by
+    rw [← Int.sign_eq_neg_one_iff_neg, ← Int.sign_eq_neg_one_iff_neg, h]
+  have h2 : (c > 0 ↔ c' > 0) := by
+    show (0 < c ↔ 0 < c')
+    rw [← Int.sign_eq_one_iff_pos, ← Int.sign_eq_one_iff_pos, h]
+  unfold derivedOfCmp
+  split <;> simp [h1, h2]
+
+/-- the four are coherent with each other for every `cmp` result (exactly one of `<`, `==0`, `>`) -/
+theorem derived_cmp_coherent (c : Int) :
+    derivedOfCmp "ge" c = (derivedOfCmp "lt" c).map (!·) ∧ derivedOfCmp "le" c = (derivedOfCmp "gt" c).map (!·) ∧
+    ¬ (derivedOfCmp "lt" c = some true ∧ derivedOfCmp "gt" c = some true) := by
+  refine ⟨rfl, rfl, ?_⟩
+  simp [derivedOfCmp]; omega
+
 end XrayModel.C02
